@@ -49,9 +49,18 @@ def judge(ctx, cfgs, tasks, results):
             ctx.sample(dict(config=name, history=[list(o) for o in ops], cache_after=res[-1][0].split(" # ")[-1][:200]))
 
 
+def mutator_sessions(ctx, cfgs):
+    """in-place mutators on dictionary values (oracle only, see C04.MUTATOR_HISTORIES): whatever the cache serves after each operation is fresh"""
+    hs = EP.MUTATOR_HISTORIES
+    tasks = [(ci, [("E", q) for q in h], {}, ("inspect",)) for ci in range(len(cfgs)) for h in hs]
+    judge(ctx, cfgs, tasks, EP.common.pmap(EP.run_session_task, tasks))
+    ctx.count("family", "in-place mutators on dictionaries (oracle only)", len(tasks))
+
+
 def run(ctx):
     per = 120 if ctx.tier == "thorough" else 30
     cfgs, tasks = gen_sessions(ctx, per)
+    mutator_sessions(ctx, cfgs)
     results = EP.common.pmap(EP.run_session_task, tasks)
     judge(ctx, cfgs, tasks, results)
     sessions = [(t[1], t[2]) for t in tasks]
